@@ -102,14 +102,31 @@ Proof.
     + injection E as E1 E2. subst y. destruct (IH w rest') as [-> ->]; auto. intros x Hx. apply Hb. right. exact Hx.
 Qed.
 
-(* ---- the quote match on  * body * post ---- *)
-Definition em_final (i : N) (body post : str) : mst :=
-  mkSt (i + 1 + lenN body + 1) (Some star) post
-       [(2%nat, {| c_s := i + 1; c_e := i + 1 + lenN body; c_txt := body ++ star :: post |});
-        (1%nat, {| c_s := i; c_e := i + 1; c_txt := star :: body ++ star :: post |})].
-
+(* ---- the quote match on  c body c post  for a one-character quote c ---- *)
 Definition body_ok (body : str) : Prop :=
   over plain_alphabet body /\ exists b0 t, body = b0 :: t /\ nonspace b0 = true /\ nonspace (last body b0) = true.
+
+Lemma mx_rstr_intro : forall q i p z cc, q <> [] ->
+  mx (rstr q) (mkSt i p (q ++ z) cc) (mkSt (i + lenN q) (last_of p q) z cc).
+Proof.
+  unfold rstr. induction q as [|x q IH]; intros i p z cc Hne; [congruence|].
+  destruct q as [|y q].
+  - cbn. exists x, z. cbn. repeat split. unfold set_match, in_items. cbn. rewrite N.leb_refl. reflexivity.
+  - change (rseq (map (fun c0 : char => RLit c0) (x :: y :: q))) with (RSeq (RLit x) (rseq (map (fun c0 : char => RLit c0) (y :: q)))).
+    cbn [mx]. exists (mkSt (i + 1) (Some x) ((y :: q) ++ z) cc). split.
+    + exists x, ((y :: q) ++ z). cbn. repeat split. unfold set_match, in_items. cbn. rewrite N.leb_refl. reflexivity.
+    + specialize (IH (i + 1) (Some x) z cc ltac:(discriminate)).
+      replace (i + lenN (x :: y :: q)) with (i + 1 + lenN (y :: q)) by (cbn [lenN]; lia). exact IH.
+Qed.
+
+Lemma mx_ralt_intro : forall (l : list regex) r s s', In r l -> mx r s s' -> mx (ralt l) s s'.
+Proof.
+  induction l as [|x l IH]; intros r s s' Hin Hm; [destruct Hin|].
+  destruct l as [|y l].
+  - destruct Hin as [->|[]]. exact Hm.
+  - change (ralt (x :: y :: l)) with (RAlt x (ralt (y :: l))). cbn [mx].
+    destruct Hin as [->|Hin]; [left; exact Hm|right; eapply IH; eauto].
+Qed.
 
 Lemma body_cases (body : str) b0 t : body = b0 :: t -> t = [] \/ exists mid bl, t = mid ++ [bl] /\ last body b0 = bl.
 Proof.
@@ -118,27 +135,44 @@ Proof.
   rewrite E. clear. change (b0 :: mid ++ [bl]) with ((b0 :: mid) ++ [bl]). apply last_last.
 Qed.
 
-Lemma em_derivation i p body post s' : body_ok body -> over plain_alphabet post ->
-  mx (re_ast qre) (mkSt i p (star :: body ++ star :: post) []) s' <-> s' = em_final i body post.
+Section OneCharQuote.
+Variable c : char.
+Hypothesis Hc92 : c <> 92.
+Hypothesis Hcq : In [c] (map q_quote quotes_default).
+Hypothesis Hsole : forall q x rest, In q (map q_quote quotes_default) -> x <> c ->
+  (exists r', c :: x :: rest = q ++ r') -> q = [c].
+
+Definition q_final (i : N) (body post : str) : mst :=
+  mkSt (i + 1 + lenN body + 1) (Some c) post
+       [(2%nat, {| c_s := i + 1; c_e := i + 1 + lenN body; c_txt := body ++ c :: post |});
+        (1%nat, {| c_s := i; c_e := i + 1; c_txt := c :: body ++ c :: post |})].
+
+(* the quoted text: free of the quote character and of backslashes, starting and ending with a non-space *)
+Definition qbody_ok (body : str) : Prop :=
+  (forall x, In x body -> x <> c /\ x <> 92) /\
+  exists b0 t, body = b0 :: t /\ nonspace b0 = true /\ nonspace (last body b0) = true.
+
+Lemma q1_derivation i p body post s' : qbody_ok body -> (forall x, In x post -> x <> c) ->
+  mx (re_ast qre) (mkSt i p (c :: body ++ c :: post) []) s' <-> s' = q_final i body post.
 Proof.
   intros [Hbody (b0 & t & Eb & Hb0 & Hbl)] Hpost. destruct qre_shape as (Sh & _ & HpX & _). rewrite Sh. cbn [mx].
-  assert (Hbs : forall x, In x body -> x <> star) by (intros x Hx; apply Hbody in Hx; apply plain_char in Hx; tauto).
-  assert (Hps : forall x, In x post -> x <> star) by (intros x Hx; apply Hpost in Hx; apply plain_char in Hx; tauto).
+  assert (Hbs : forall x, In x body -> x <> c) by (intros x Hx; apply Hbody in Hx; tauto).
+  assert (Hps : forall x, In x post -> x <> c) by exact Hpost.
   split.
   - intros (s1 & (n & Hbsl & _ & _) & s2 & (s1' & Hh & ->) & s3 & (s2' & HX & ->) & (g & rest' & p' & Hg & Hsp & ->)).
-    assert (s1 = mkSt i p (star :: body ++ star :: post) []).
+    assert (s1 = mkSt i p (c :: body ++ c :: post) []).
     { destruct n as [|n]; [exact Hbsl|]. exfalso. cbn [iterR mx] in Hbsl. destruct Hbsl as (sx & (z & tz & Hrz & Hz & _) & _).
-      apply lit_match in Hz. subst z. cbn in Hrz. inversion Hrz. }
+      apply lit_match in Hz. subst z. cbn in Hrz. inversion Hrz. congruence. }
     subst s1.
-    (* group 1: one of the quote strings, hence the star *)
+    (* group 1: one of the quote strings, hence the c *)
     pose proof (mx_Matches _ _ _ Hh) as Mh. unfold quote_alts in Mh. rewrite <- map_map in Mh.
     apply Matches_ralt_rstr in Mh as (q & Hq & Cq & Kq).
     assert (Hpure : pure (quote_alts quotes_default) = true) by reflexivity.
     apply (pure_transport _ Hpure) in Hh as (wq & Eq & Pq & [Iq Cq'] & _).
     unfold consumed in Cq. cbn [st_rest st_p st_i st_c] in *.
     assert (wq = q) by (rewrite Eq in Cq; apply app_inv_tail in Cq; exact Cq). subst wq.
-    assert (q = [star]).
-    { rewrite Eb in Cq. cbn [app] in Cq. eapply (sole_prefix q b0 (t ++ star :: post)); [exact Hq| |eauto].
+    assert (q = [c]).
+    { rewrite Eb in Cq. cbn [app] in Cq. eapply (Hsole q b0 (t ++ c :: post)); [exact Hq| |eauto].
       apply Hbs. rewrite Eb. left. reflexivity. }
     subst q. cbn [app lenN last_of] in *. inversion Eq as [Er1]. clear Eq Cq.
     (* group 2 and the back-reference *)
@@ -146,52 +180,108 @@ Proof.
     rewrite C2, Cq' in Hg. cbn [cap_get Nat.eqb] in Hg. inversion Hg; subst g. clear Hg.
     unfold cap_text in Hsp. cbn [c_s c_e c_txt] in Hsp. rewrite Iq in Hsp.
     replace (i + N.succ 0 - i) with 1 in Hsp by lia. cbn [takeN N.eqb Pos.eqb N.pred Pos.pred_N] in Hsp.
-    replace (takeN 0 (body ++ star :: post)) with (@nil char) in Hsp by (destruct (body ++ star :: post); reflexivity).
+    replace (takeN 0 (body ++ c :: post)) with (@nil char) in Hsp by (destruct (body ++ c :: post); reflexivity).
     cbn [strip_prefix] in Hsp. destruct (st_rest s2') as [|y r2] eqn:Er2; [discriminate|].
-    destruct (star =? y) eqn:Ey; [|discriminate]. apply N.eqb_eq in Ey. subst y. inversion Hsp; subst rest' p'. clear Hsp.
+    destruct (c =? y) eqn:Ey; [|discriminate]. apply N.eqb_eq in Ey. subst y. inversion Hsp; subst rest' p'. clear Hsp.
     rewrite <- Er1 in E2.
-    destruct (split_at_first star post Hps body w2 r2 Hbs E2) as [-> ->].
-    unfold em_final. cbn [c_s c_e]. rewrite I2, C2. cbn [st_i st_c]. rewrite Iq, Cq'. cbn [lenN].
+    destruct (split_at_first c post Hps body w2 r2 Hbs E2) as [-> ->].
+    unfold q_final. cbn [c_s c_e]. rewrite I2, C2. cbn [st_i st_c]. rewrite Iq, Cq'. cbn [lenN].
     f_equal; try lia; repeat f_equal; lia.
-  - intros ->. unfold em_final.
-    exists (mkSt i p (star :: body ++ star :: post) []). split; [exists O; cbn; repeat split; lia|].
-    exists (mkSt (i + 1) (Some star) (body ++ star :: post) [(1%nat, {| c_s := i; c_e := i + 1; c_txt := star :: body ++ star :: post |})]).
+  - intros ->. unfold q_final.
+    exists (mkSt i p (c :: body ++ c :: post) []). split; [exists O; cbn; repeat split; lia|].
+    exists (mkSt (i + 1) (Some c) (body ++ c :: post) [(1%nat, {| c_s := i; c_e := i + 1; c_txt := c :: body ++ c :: post |})]).
     split.
-    { exists (mkSt (i + 1) (Some star) (body ++ star :: post) []). split; [|reflexivity].
-      (* the second alternative of the quote strings is the star *)
-      assert (Hq : exists qs1 qs2, map q_quote quotes_default = qs1 ++ [star] :: qs2) by (exists [$"**"], (tl (tl (map q_quote quotes_default))); reflexivity).
-      unfold quote_alts. cbn. right. left. exists star, (body ++ star :: post). cbn. auto. }
-    exists (mkSt (i + 1 + lenN body) (last_of (Some star) body) (star :: post)
-                 [(2%nat, {| c_s := i + 1; c_e := i + 1 + lenN body; c_txt := body ++ star :: post |});
-                  (1%nat, {| c_s := i; c_e := i + 1; c_txt := star :: body ++ star :: post |})]). split.
-    { exists (mkSt (i + 1 + lenN body) (last_of (Some star) body) (star :: post)
-                   [(1%nat, {| c_s := i; c_e := i + 1; c_txt := star :: body ++ star :: post |})]).
+    { exists (mkSt (i + 1) (Some c) (body ++ c :: post) []). split; [|reflexivity].
+      unfold quote_alts. apply (mx_ralt_intro _ (rstr [c])).
+      - apply in_map_iff in Hcq as (d0 & Hd0 & Hin0). apply in_map_iff. exists d0. rewrite Hd0. auto.
+      - exact (mx_rstr_intro [c] i p (body ++ c :: post) [] ltac:(discriminate)). }
+    exists (mkSt (i + 1 + lenN body) (last_of (Some c) body) (c :: post)
+                 [(2%nat, {| c_s := i + 1; c_e := i + 1 + lenN body; c_txt := body ++ c :: post |});
+                  (1%nat, {| c_s := i; c_e := i + 1; c_txt := c :: body ++ c :: post |})]). split.
+    { exists (mkSt (i + 1 + lenN body) (last_of (Some c) body) (c :: post)
+                   [(1%nat, {| c_s := i; c_e := i + 1; c_txt := c :: body ++ c :: post |})]).
       split; [|reflexivity]. destruct qX_shape as (negA & itA & itB & itM & -> & HA & HB & HM). cbn [mx].
-      assert (H92 : forall x, In x body -> x <> 92) by (intros x Hx; apply Hbody in Hx; apply plain_char in Hx; tauto).
+      assert (H92 : forall x, In x body -> x <> 92) by (intros x Hx; apply Hbody in Hx; tauto).
       destruct (body_cases body b0 t Eb) as [->|(mid & bl & -> & Ebl)].
-      - left. subst body. exists b0, (star :: post). cbn. split; [reflexivity|]. split; [|reflexivity].
+      - left. subst body. exists b0, (c :: post). cbn. split; [reflexivity|]. split; [|reflexivity].
         apply HA; [exact Hb0|apply H92; left; reflexivity].
       - right. subst body. rewrite Ebl in Hbl.
-        assert (En : (b0 :: mid ++ [bl]) ++ star :: post = b0 :: mid ++ bl :: star :: post)
+        assert (En : (b0 :: mid ++ [bl]) ++ c :: post = b0 :: mid ++ bl :: c :: post)
           by (cbn; rewrite <- app_assoc; reflexivity).
         rewrite En.
-        assert (El : last_of (Some star) (b0 :: mid ++ [bl]) = Some bl).
+        assert (El : last_of (Some c) (b0 :: mid ++ [bl]) = Some bl).
         { clear. cbn. generalize (Some b0). induction mid as [|x mid IH]; intros o; [reflexivity|]. cbn. apply IH. }
         assert (Ln : lenN (b0 :: mid ++ [bl]) = 1 + lenN mid + 1) by (cbn [lenN]; rewrite lenN_app; cbn [lenN]; lia).
         rewrite El, Ln.
-        set (cap1 := (1%nat, {| c_s := i; c_e := i + 1; c_txt := star :: b0 :: mid ++ bl :: star :: post |})).
-        exists (mkSt (i + 1 + 1) (Some b0) (mid ++ bl :: star :: post) [cap1]).
-        split; [exists b0, (mid ++ bl :: star :: post); cbn [st_rest st_i st_p st_c]; repeat split; apply HB; exact Hb0|].
-        exists (mkSt (i + 1 + 1 + lenN mid) (last_of (Some b0) mid) (bl :: star :: post) [cap1]).
+        set (cap1 := (1%nat, {| c_s := i; c_e := i + 1; c_txt := c :: b0 :: mid ++ bl :: c :: post |})).
+        exists (mkSt (i + 1 + 1) (Some b0) (mid ++ bl :: c :: post) [cap1]).
+        split; [exists b0, (mid ++ bl :: c :: post); cbn [st_rest st_i st_p st_c]; repeat split; apply HB; exact Hb0|].
+        exists (mkSt (i + 1 + 1 + lenN mid) (last_of (Some b0) mid) (bl :: c :: post) [cap1]).
         split.
         + exists (length mid). split; [apply iter_set_intro; intros; apply HM|]. split; [lia|exact Logic.I].
-        + exists bl, (star :: post). cbn [st_rest st_i st_p st_c]. split; [reflexivity|]. split.
+        + exists bl, (c :: post). cbn [st_rest st_i st_p st_c]. split; [reflexivity|]. split.
           * apply HA; [exact Hbl|apply H92; right; apply in_or_app; right; left; reflexivity].
           * f_equal. lia. }
-    exists {| c_s := i; c_e := i + 1; c_txt := star :: body ++ star :: post |}, post, (Some star).
+    exists {| c_s := i; c_e := i + 1; c_txt := c :: body ++ c :: post |}, post, (Some c).
     cbn [st_c cap_get Nat.eqb st_rest st_p st_i]. split; [reflexivity|]. split.
-    { unfold cap_text. cbn [c_s c_e c_txt]. replace (i + 1 - i) with 1 by lia. cbn. destruct (body ++ star :: post); reflexivity. }
+    { unfold cap_text. cbn [c_s c_e c_txt]. replace (i + 1 - i) with 1 by lia. cbn. rewrite N.eqb_refl. destruct (body ++ c :: post); reflexivity. }
     cbn [c_s c_e]. f_equal. lia.
+Qed.
+
+Lemma q1_match pre body post : (forall x, In x pre -> first (re_ast qre) x = false) -> qbody_ok body -> (forall x, In x post -> x <> c) ->
+  exists m, re_search qre (pre ++ c :: body ++ c :: post) = Some m /\
+    m_start m = lenN pre /\ m_end m = lenN pre + lenN (c :: body ++ [c]) /\
+    m_groups m = [Some (c :: body ++ [c]); Some [c]; Some body].
+Proof.
+  intros Hpre Hbody Hpost. destruct qre_shape as (_ & Hng & _ & Hwf).
+  assert (Hn : nullable (re_ast qre) = false) by reflexivity.
+  destruct (exec_exact _ Hwf) as [S C].
+  set (i := lenN pre). set (p := last_of None pre).
+  assert (Hex : match_at qre i p (c :: body ++ c :: post) <> None).
+  { apply (proj2 (match_at_iff _ _ _ _ Hwf)). exists (q_final i body post). apply q1_derivation; auto. }
+  unfold match_at in Hex.
+  destruct (exec (re_ast qre) kfinal i p (c :: body ++ c :: post) []) as [[e cc]|] eqn:E; [|cbn in Hex; congruence].
+  pose proof E as E'. apply S in E' as (s' & M & Hk). apply (q1_derivation i p body post s' Hbody Hpost) in M. subst s'.
+  unfold kapp, kfinal, q_final in Hk. cbn in Hk. inversion Hk; subst e cc. clear Hk.
+  eexists. split.
+  - unfold re_search. rewrite (search_from_skip qre Hn pre 0 None _ Hpre).
+    rewrite N.add_0_l. fold i p. cbn [search_from]. unfold match_at. rewrite E. reflexivity.
+  - cbn [option_map mk_mres m_start m_end m_groups]. split; [reflexivity|].
+    split; [cbn [lenN]; rewrite lenN_app; cbn [lenN]; lia|].
+    rewrite Hng. cbn [group_list cap_get Nat.eqb option_map]. unfold cap_text. cbn [c_s c_e c_txt].
+    replace (i + 1 + lenN body + 1 - i) with (lenN (c :: body ++ [c])) by (cbn [lenN]; rewrite lenN_app; cbn [lenN]; lia).
+    replace (i + 1 - i) with (lenN [c]) by (cbn; lia).
+    replace (i + 1 + lenN body - (i + 1)) with (lenN body) by lia.
+    replace (c :: body ++ c :: post) with ((c :: body ++ [c]) ++ post) by (cbn; rewrite <- app_assoc; reflexivity).
+    rewrite takeN_app_exact.
+    replace ((c :: body ++ [c]) ++ post) with ([c] ++ body ++ c :: post) by (cbn; rewrite <- app_assoc; reflexivity).
+    rewrite takeN_app_exact. rewrite takeN_app_exact. reflexivity.
+Qed.
+
+End OneCharQuote.
+
+(* ---- the star ---- *)
+Definition em_final := q_final star.
+
+Lemma star_sole : forall q x rest, In q (map q_quote quotes_default) -> x <> star ->
+  (exists r', star :: x :: rest = q ++ r') -> q = [star].
+Proof. exact sole_prefix. Qed.
+
+Lemma star_in : In [star] (map q_quote quotes_default).
+Proof. cbn. auto. Qed.
+
+Lemma body_ok_q body : body_ok body -> qbody_ok star body.
+Proof.
+  intros [Hb Hs]. split; [|exact Hs]. intros x Hx. apply Hb in Hx. apply plain_char in Hx. tauto.
+Qed.
+
+Lemma plain_not_star post : over plain_alphabet post -> forall x, In x post -> x <> star.
+Proof. intros H x Hx. apply H in Hx. apply plain_char in Hx. tauto. Qed.
+
+Lemma em_derivation i p body post s' : body_ok body -> over plain_alphabet post ->
+  mx (re_ast qre) (mkSt i p (star :: body ++ star :: post) []) s' <-> s' = em_final i body post.
+Proof.
+  intros Hb Hp. apply (q1_derivation star ltac:(discriminate) star_in star_sole); [apply body_ok_q; exact Hb|apply plain_not_star; exact Hp].
 Qed.
 
 Lemma em_match pre body post : over plain_alphabet pre -> body_ok body -> over plain_alphabet post ->
@@ -199,29 +289,8 @@ Lemma em_match pre body post : over plain_alphabet pre -> body_ok body -> over p
     m_start m = lenN pre /\ m_end m = lenN pre + lenN (star :: body ++ [star]) /\
     m_groups m = [Some (star :: body ++ [star]); Some [star]; Some body].
 Proof.
-  intros Hpre Hbody Hpost. destruct qre_shape as (_ & Hng & _ & Hwf).
-  assert (Hn : nullable (re_ast qre) = false) by reflexivity.
-  destruct (exec_exact _ Hwf) as [S C].
-  set (i := lenN pre). set (p := last_of None pre).
-  assert (Hex : match_at qre i p (star :: body ++ star :: post) <> None).
-  { apply (proj2 (match_at_iff _ _ _ _ Hwf)). exists (em_final i body post). apply em_derivation; auto. }
-  unfold match_at in Hex.
-  destruct (exec (re_ast qre) kfinal i p (star :: body ++ star :: post) []) as [[e c]|] eqn:E; [|cbn in Hex; congruence].
-  pose proof E as E'. apply S in E' as (s' & M & Hk). apply (em_derivation i p body post s' Hbody Hpost) in M. subst s'.
-  unfold kapp, kfinal, em_final in Hk. cbn in Hk. inversion Hk; subst e c. clear Hk.
-  eexists. split.
-  - unfold re_search. rewrite (search_from_skip qre Hn pre 0 None _ (fun x Hx => proj2 (proj2 (plain_char x (Hpre x Hx))))).
-    rewrite N.add_0_l. fold i p. cbn [search_from]. unfold match_at. rewrite E. reflexivity.
-  - cbn [option_map mk_mres m_start m_end m_groups]. split; [reflexivity|].
-    split; [cbn [lenN]; rewrite lenN_app; cbn [lenN]; lia|].
-    rewrite Hng. cbn [group_list cap_get Nat.eqb option_map]. unfold cap_text. cbn [c_s c_e c_txt].
-    replace (i + 1 + lenN body + 1 - i) with (lenN (star :: body ++ [star])) by (cbn [lenN]; rewrite lenN_app; cbn [lenN]; lia).
-    replace (i + 1 - i) with (lenN [star]) by (cbn; lia).
-    replace (i + 1 + lenN body - (i + 1)) with (lenN body) by lia.
-    replace (star :: body ++ star :: post) with ((star :: body ++ [star]) ++ post) by (cbn; rewrite <- app_assoc; reflexivity).
-    rewrite takeN_app_exact.
-    replace ((star :: body ++ [star]) ++ post) with ([star] ++ body ++ star :: post) by (cbn; rewrite <- app_assoc; reflexivity).
-    rewrite takeN_app_exact. rewrite takeN_app_exact. reflexivity.
+  intros Hpre Hb Hp. apply (q1_match star ltac:(discriminate) star_in star_sole); [|apply body_ok_q; exact Hb|apply plain_not_star; exact Hp].
+  intros x Hx. apply Hpre in Hx. apply plain_char in Hx. tauto.
 Qed.
 
 Lemma count_lead_none (c : char) (s : str) : (forall x, In x s -> x <> c) -> count_lead c s = (0, s).
@@ -314,5 +383,153 @@ Proof.
     { intros t Ht x Hx. unfold em_alphabet. apply in_escape in Hx as [Hx|Hx]; apply in_or_app; [left; auto|right; apply in_or_app; left; exact Hx]. }
     assert (Htag : forall x, In x ($"<em>") \/ In x ($"</em>") -> In x em_alphabet).
     { intros x Hx. unfold em_alphabet. apply in_or_app. right. apply in_or_app. right. cbn in *. intuition. }
+    intros x Hx. repeat (apply in_app_or in Hx as [Hx|Hx]); eauto.
+Qed.
+
+(* ---- C09: the code quote: `body` renders to <code>body</code>, and a star inside it is not markup ---- *)
+Definition tick : char := 96.
+Definition code_alphabet : list char := plain_alphabet ++ [star].
+Definition tick_alphabet : list char := plain_alphabet ++ [star; tick].
+
+Lemma tick_alphabet_ok : forallb (fun r => negb (okA tick_alphabet (re_ast r))) repl_post_unescape = true.
+Proof. vm_compute. reflexivity. Qed.
+
+Section ReplTick.
+Variable s : ienv.
+Variable sr : str -> I str.
+Lemma fragReplacements_tick n t : forall defs,
+  (forall d, In d defs -> In (r_re d) repl_post_unescape) -> over tick_alphabet t ->
+  fragReplacements s sr (S n) defs [undone t] = iret [undone t].
+Proof.
+  induction defs as [|d ds IH]; intros Hds Ht; cbn [fragReplacements]; [reflexivity|].
+  cbn [iconcat_map undone f_done f_text fragReplacement].
+  assert (Hno : okA tick_alphabet (re_ast (r_re d)) = false).
+  { pose proof tick_alphabet_ok as H. rewrite forallb_forall in H. specialize (H (r_re d) (Hds d (or_introl eq_refl))).
+    apply negb_true_iff in H. exact H. }
+  rewrite (re_search_none_over tick_alphabet _ _ Hno Ht).
+  cbn [ibind iret app]. rewrite IH; auto. intros d' Hd'. apply Hds. right. exact Hd'.
+Qed.
+End ReplTick.
+
+Lemma tick_sole : forall q x rest, In q (map q_quote quotes_default) -> x <> tick ->
+  (exists r', tick :: x :: rest = q ++ r') -> q = [tick].
+Proof.
+  intros q x rest Hq Hx (r' & E). cbn in Hq.
+  repeat (destruct Hq as [<-|Hq]; [cbn in E; inversion E; subst; try reflexivity; try congruence|]); destruct Hq.
+Qed.
+
+Lemma tick_in : In [tick] (map q_quote quotes_default).
+Proof. cbn. auto 10. Qed.
+
+Definition code_body_ok (body : str) : Prop :=
+  over code_alphabet body /\ exists b0 t, body = b0 :: t /\ nonspace b0 = true /\ nonspace (last body b0) = true.
+
+Lemma code_char x : In x code_alphabet -> x <> tick /\ x <> 92 /\ x <> 0.
+Proof.
+  intros Hx. assert (H : forallb (fun y => negb (y =? tick) && negb (y =? 92) && negb (y =? 0)) code_alphabet = true) by (vm_compute; reflexivity).
+  rewrite forallb_forall in H. apply H in Hx. apply andb_prop in Hx as [Hx H3]. apply andb_prop in Hx as [H1 H2].
+  apply negb_true_iff in H1, H2, H3. apply N.eqb_neq in H1, H2, H3. auto.
+Qed.
+
+Lemma plain_not_tick x : In x plain_alphabet -> x <> tick.
+Proof. intros Hx. apply (code_char x). unfold code_alphabet. apply in_or_app. left. exact Hx. Qed.
+
+Lemma code_match pre body post : over plain_alphabet pre -> code_body_ok body -> over plain_alphabet post ->
+  exists m, re_search qre (pre ++ tick :: body ++ tick :: post) = Some m /\
+    m_start m = lenN pre /\ m_end m = lenN pre + lenN (tick :: body ++ [tick]) /\
+    m_groups m = [Some (tick :: body ++ [tick]); Some [tick]; Some body].
+Proof.
+  intros Hpre [Hb Hs] Hp. apply (q1_match tick ltac:(discriminate) tick_in tick_sole).
+  - intros x Hx. apply Hpre in Hx. apply plain_char in Hx. tauto.
+  - split; [|exact Hs]. intros x Hx. apply Hb in Hx. apply code_char in Hx. tauto.
+  - intros x Hx. apply plain_not_tick. auto.
+Qed.
+
+Lemma code_def : quote_getDefinition quotes_default [tick] = Some (mkQ [tick] $"<code>" $"</code>" false).
+Proof. reflexivity. Qed.
+
+Lemma fragQuote_step_verbatim n qs qre0 text m d : find_quote n qre0 text 0 = Ok (Some m) ->
+  quote_getDefinition qs (grp_s m 1) = Some d -> q_spans d = false ->
+  fragQuote (S n) qs qre0 text =
+  (let q0 := hd 0 (grp_s m 1) in
+   let after0 := dropN (m_end m) text in
+   let lead := fst (count_lead q0 after0) in
+   let after := snd (count_lead q0 after0) in
+   let quoted := grp_s m 2 ++ takeN lead after0 in
+   match fragQuote n qs qre0 after with
+   | Fuel => Fuel | Raise e => Raise e
+   | Ok rest => Ok (undone (takeN (m_start m) text) :: done (q_open d) :: [done (replace_char 0 1 (escape quoted))] ++ done (q_close d) :: rest)
+   end).
+Proof. intros H Hd Hs. cbn [fragQuote]. rewrite H, Hd, Hs. reflexivity. Qed.
+
+Lemma replace_char_absent (a b : char) : forall t : str, (forall x, In x t -> x <> a) -> replace_char a b t = t.
+Proof.
+  induction t as [|x t IH]; intros H; [reflexivity|]. unfold replace_char in *. cbn [map].
+  replace (x =? a) with false by (symmetry; apply N.eqb_neq; apply H; left; reflexivity).
+  f_equal. apply IH. intros y Hy. apply H. right. exact Hy.
+Qed.
+
+Lemma fragQuote_code n pre body post : over plain_alphabet pre -> code_body_ok body -> over plain_alphabet post ->
+  fragQuote (S (S (S n))) quotes_default qre (pre ++ tick :: body ++ tick :: post) =
+  Ok [undone pre; done $"<code>"; done (escape body); done $"</code>"; undone post].
+Proof.
+  intros Hpre Hbody Hpost. destruct (code_match pre body post Hpre Hbody Hpost) as (m & Hm & Hst & Hen & Hg).
+  assert (Hps : forall x, In x post -> x <> tick) by (intros x Hx; apply plain_not_tick; auto).
+  set (T := pre ++ tick :: body ++ tick :: post) in *.
+  assert (G0 : grp0 m = tick :: body ++ [tick]) by (unfold grp0, grp_s, grp; rewrite Hg; reflexivity).
+  assert (G1 : grp_s m 1 = [tick]) by (unfold grp_s, grp; rewrite Hg; reflexivity).
+  assert (G2 : grp_s m 2 = body) by (unfold grp_s, grp; rewrite Hg; reflexivity).
+  assert (Hf : find_quote (S (S n)) qre T 0 = Ok (Some m)) by (apply find_quote_first; [exact Hm|rewrite G0; reflexivity]).
+  rewrite (fragQuote_step_verbatim (S (S n)) quotes_default qre T m (mkQ [tick] $"<code>" $"</code>" false) Hf); [|rewrite G1; exact code_def|reflexivity].
+  cbv zeta. rewrite G1, G2. cbn [hd q_open q_close].
+  assert (Ha : dropN (m_end m) T = post).
+  { rewrite Hen. unfold T. replace (pre ++ tick :: body ++ tick :: post) with (pre ++ (tick :: body ++ [tick]) ++ post)
+      by (cbn; rewrite <- app_assoc; reflexivity).
+    rewrite dropN_app_plus. apply dropN_app_exact. }
+  assert (Hb : takeN (m_start m) T = pre) by (rewrite Hst; unfold T; apply takeN_app_exact).
+  rewrite Ha, Hb, (count_lead_none tick post Hps). cbn [fst snd].
+  replace (takeN 0 post) with (@nil char) by (destruct post; reflexivity). rewrite app_nil_r.
+  change qre with (quotesRe quotes_default). rewrite (fragQuote_plain n post Hpost).
+  rewrite replace_char_absent; [reflexivity|].
+  intros x Hx. apply in_escape in Hx as [Hx|Hx].
+  - destruct Hbody as [Hb0 _]. apply Hb0 in Hx. apply code_char in Hx. tauto.
+  - cbn in Hx. intuition; subst; discriminate.
+Qed.
+
+Definition code_out_alphabet : list char := plain_alphabet ++ [star] ++ $"&amp;gtl" ++ $"<code>/".
+Lemma code_out_alphabet_ok : okA code_out_alphabet (re_ast re_spans_postReplacements_0) = false.
+Proof. vm_compute. reflexivity. Qed.
+
+Theorem spans_render_code n s pre body post :
+  defaults s -> over plain_alphabet pre -> code_body_ok body -> over plain_alphabet post ->
+  spans_render (S (S (S (S n)))) s (pre ++ tick :: body ++ tick :: post) =
+  iret (escape pre ++ $"<code>" ++ escape body ++ $"</code>" ++ escape post).
+Proof.
+  intros [Hr Hq] Hpre Hbody Hpost. cbn [spans_render]. unfold spans_body. rewrite Hr, Hq.
+  assert (HT : over tick_alphabet (pre ++ tick :: body ++ tick :: post)).
+  { unfold tick_alphabet. intros x Hx. apply in_or_app. apply in_app_or in Hx as [Hx|[<-|Hx]]; [left; auto|right; right; left; reflexivity|].
+    apply in_app_or in Hx as [Hx|[<-|Hx]]; [|right; right; left; reflexivity|left; auto].
+    destruct Hbody as [Hb0 _]. apply Hb0 in Hx. unfold code_alphabet in Hx. apply in_app_or in Hx as [Hx|[<-|[]]]; [left; exact Hx|right; left; reflexivity]. }
+  assert (Hin : forall d, In d replacements_default -> In (r_re d) repl_post_unescape).
+  { intros d Hd. unfold repl_post_unescape. apply in_or_app. left. apply in_map. exact Hd. }
+  rewrite (fragReplacements_tick s _ _ _ replacements_default Hin HT).
+  cbn [ibind iret filter undone f_done app].
+  unfold frag_placeholder_text. cbn [flat_map undone f_done f_text]. rewrite ?app_nil_r.
+  unfold fragQuotes. cbn [res_concat_map undone f_done f_text].
+  fold qre. rewrite (fragQuote_code n pre body post Hpre Hbody Hpost).
+  cbn [app map undone done f_done f_text f_verb of_res iret ibind flat_map].
+  assert (Hun : forall t, over plain_alphabet t -> quotes_unescape quotes_default t = t).
+  { intros t Ht. unfold quotes_unescape. apply (re_sub_none_over plain_alphabet); [apply no_match_spec, unescapeRe_in|exact Ht]. }
+  rewrite (Hun pre Hpre), (Hun post Hpost). rewrite ?app_nil_r.
+  rewrite (re_scan_none_over code_out_alphabet); [|exact code_out_alphabet_ok|].
+  - cbn [postReplacements of_res iret ibind app]. rewrite ?app_nil_r. reflexivity.
+  - assert (He : forall t, over plain_alphabet t -> forall x, In x (escape t) -> In x code_out_alphabet).
+    { intros t Ht x Hx. unfold code_out_alphabet. apply in_escape in Hx as [Hx|Hx]; apply in_or_app; [left; auto|right; apply in_or_app; right; apply in_or_app; left; exact Hx]. }
+    assert (Heb : forall x, In x (escape body) -> In x code_out_alphabet).
+    { intros x Hx. unfold code_out_alphabet. apply in_escape in Hx as [Hx|Hx].
+      - destruct Hbody as [Hb0 _]. apply Hb0 in Hx. unfold code_alphabet in Hx. rewrite app_assoc. apply in_or_app. left. exact Hx.
+      - apply in_or_app. right. apply in_or_app. right. apply in_or_app. left. exact Hx. }
+    assert (Htag : forall x, In x ($"<code>") \/ In x ($"</code>") -> In x code_out_alphabet).
+    { intros x Hx. unfold code_out_alphabet. apply in_or_app. right. apply in_or_app. right. apply in_or_app. right. cbn in *. intuition. }
     intros x Hx. repeat (apply in_app_or in Hx as [Hx|Hx]); eauto.
 Qed.
